@@ -167,7 +167,7 @@ func (m *c04Mon) after(h *H, s *step) {
 
 var c04Profile = opProfile{
 	browsers: 3, wNav: 5, wLogin: 1, wAuthorize: 5, wCallback: 4, wLogout: 1, wAdvance: 1, wIdP: 0, wAttack: 7,
-	attacks:    []string{"replay-callback", "replay-callback", "replay-callback", "forged-callback", "chosen-id", "pending-id-app"},
+	attacks:    []string{"replay-callback", "replay-callback", "replay-callback", "forged-callback", "chosen-id", "pending-id-app", "near-miss-cookie-name"},
 	behaviours: c01Behaviours,
 }
 
@@ -186,6 +186,16 @@ func c04Prop(c *sim.Case) {
 		pre := []op{{K: "nav", B: b, Target: "/a"}, {K: "authorize", B: b},
 			{K: "attack", Att: "replay-callback", B: b, B2: b, Arg: callbackEdits[sim.Pick(c, "early.edit", len(callbackEdits))]}, {K: "callback", B: b}}
 		at := sim.Pick(c, "early.at", len(ops)+1)
+		ops = append(ops[:at:at], append(pre, ops[at:]...)...)
+	}
+	if sim.Weighted(c, "cross-session-callback", 3, 1) == 1 {
+		// browser b's pending callback arrives in ANOTHER browser, whose cookie header also carries b's session id under
+		// a name that merely resembles the session cookie's
+		b := sim.Pick(c, "cross.b", 3)
+		v := (b + 1 + sim.Pick(c, "cross.v", 2)) % 3
+		pre := []op{{K: "nav", B: v, Target: "/v"}, {K: "nav", B: b, Target: "/a"}, {K: "authorize", B: b},
+			{K: "attack", Att: "near-miss-cookie-name", B: v, B2: b, Arg: "callback", N: sim.Pick(c, "cross.n", 4)}, {K: "callback", B: b}}
+		at := sim.Pick(c, "cross.at", len(ops)+1)
 		ops = append(ops[:at:at], append(pre, ops[at:]...)...)
 	}
 	c.Logf("world: %v client=%q secret=%q callback=%q", ho, ho.o.ClientID, ho.o.ClientSecret, ho.o.CallbackURI)
